@@ -88,6 +88,8 @@ def strict_json(j, path='$'):
 EDGE = [None, True, False, Ellipsis, 0, 1, -1, 255, MAXI, MAXI + 1, -MAXI, -MAXI - 1, 2 ** 70, -2 ** 70, 2 ** 64,
         0.0, -0.0, 1.0, 1.5, 5e-324, 1.7976931348623157e308, float('inf'), float('-inf'), float('nan'), 1e16, 0.1,
         0j, complex(0.0, -0.0), complex(-0.0, 0.0), complex(float('inf'), float('nan')), 1 + 2j, complex(1e308, -1e-308),
+        complex(float('nan'), 1.0), complex(float('nan'), 2.0), complex(1.0, float('nan')), complex(float('nan'), float('nan')),
+        complex(float('nan'), -0.0), complex(float('nan'), 0.0), complex(-0.0, float('nan')),
         '', 'a', 'é', '\U0001f600', '\udc80', 'a\ud800b', '\x00', 'line\nbreak', '"quoted"', "it's", '\\', 'nan', 'inf',
         b'', b'a', b'\x00\xff', b'\xf0\x9f', bytes(range(256))]
 
@@ -281,6 +283,9 @@ def c08_consts(w, inp):
         if v == 1 and not isinstance(v, (tuple, frozenset)): comp += [1, 1.0, True, 1 + 0j]
         if v == 0 and not isinstance(v, (tuple, frozenset)): comp += [0, 0.0, -0.0, False, 0j, complex(0.0, -0.0)]
         if isinstance(v, tuple): comp.append(tuple(json_copy(x) for x in v))
+        if isinstance(v, complex) and v != v:
+            # NaN in one part: the other part still distinguishes (seeded change C08-r3)
+            comp += [complex(v.real, 7.0) if v.real != v.real else complex(7.0, v.imag), complex(float('nan'), float('nan')), (v, 1), (complex(float('nan'), 3.0), 1)]
     vals = vals + comp
     cs = [Constant(v) for v in vals] + [Constant(v, 3) for v in vals[:3]]
     keys = pykey_partition([c.constant for c in cs])
@@ -592,12 +597,63 @@ def c12_synth(w, inp):
     w.seen(inp['subseed'])
 
 
+# ---- results must not depend on which other arguments were processed before (no state shared between calls) ----
+TWINS = [
+    ("def f(x):\n    y = x + 1\n    return y\n", "def f(x):\n    y = x + 1\n\n    return y\n"),
+    ("g = [lambda a: (a,\n b)]\n", "g = [lambda a: (a,\n\n b)]\n"),
+    ("class C:\n    def m(self):\n        return (self,\n            1)\n", "class C:\n    def m(self):\n        return (self,\n\n            1)\n"),
+    ("def o():\n    def i():\n        return (p,\n            q)\n    return i\n", "def o():\n    def i():\n        return (p,\n\n\n            q)\n    return i\n"),
+    ("def o(z):\n    return [lambda: (z,\n 1), 2]\n", "def o(z):\n    return [lambda: (z,\n\n 1), 2]\n"),
+]
+_ISOLATED = r"""
+import sys, hashlib
+sys.path.insert(0, %r)
+import ser
+from code_data import CodeData
+for src in %r:
+    d = CodeData.from_code(compile(src, '<twin>', 'exec'))
+    print(hashlib.sha1(ser.s_data(d).encode()).hexdigest())
+"""
+
+
+def c12_twins(w, inp):
+    """A and B compile (same file name) to code whose nested code objects CPython considers equal (code equality ignores
+    the line table) but which are different programs: decoding B after A, A after B, and either again after 300
+    unrelated decodings must give what decoding it alone in a fresh process gives."""
+    import subprocess, os, hashlib
+    a_src, b_src = TWINS[inp['index']]
+    dg = lambda d: hashlib.sha1(ser.s_data(d).encode()).hexdigest()
+    A = compile(a_src, '<twin>', 'exec'); B = compile(b_src, '<twin>', 'exec')
+    here = os.path.dirname(os.path.abspath(__file__))
+    p = subprocess.run([sys.executable, '-c', _ISOLATED % (here, [b_src, a_src])], stdout=subprocess.PIPE, stderr=subprocess.PIPE,
+                       universal_newlines=True, env=dict(os.environ))
+    if p.returncode != 0:
+        raise RuntimeError('isolated decoding failed: ' + p.stderr[-300:])
+    iso_b, iso_a = p.stdout.split()
+    seq = []
+    seq.append(('A', dg(CodeData.from_code(A)))); seq.append(('B', dg(CodeData.from_code(B)))); seq.append(('A', dg(CodeData.from_code(A))))
+    for k in range(300):   # unrelated arguments in between (evicts any bounded memo)
+        CodeData.from_code(compile("def u%d(v):\n    return v + %d\n" % (k, k), '<twin>', 'exec'))
+    seq.append(('B', dg(CodeData.from_code(B)))); seq.append(('A', dg(CodeData.from_code(A))))
+    w.stats['calls'] += 305
+    for step, (which, got) in enumerate(seq):
+        if got != (iso_a if which == 'A' else iso_b):
+            w.violation('C12:result-depends-on-call-history', inp,
+                        {'step': step, 'argument': which, 'sequence': 'A B A <300 others> B A', 'source_A': a_src, 'source_B': b_src})
+            break
+    w.seen('twins-%d' % inp['index'])
+    w.sample({'twins': inp['index']})
+
+
 def run_C12(w):
     for inp, c in programs(w, want=('fixed', 'special', 'gen')):
         w.guard(c12_one, w, inp, c)
     rng = random.Random(w.seed * 307 + w.shard)
     for i in range({'quick': 400, 'search': 600}.get(w.tier, 8000) // w.nshards):
         w.guard(c12_synth, w, {'kind': 'synthdoc', 'subseed': rng.randrange(1 << 30)})
+    for i in range(len(TWINS)):
+        if i % w.nshards == w.shard:
+            w.guard(c12_twins, w, {'kind': 'twins', 'index': i})
 
 
 props.RUN['C07'] = run_C07
@@ -606,6 +662,7 @@ props.RUN['C12'] = run_C12
 props.ONE['C07'] = lambda w, inp, c: [c07_data(w, inp, CodeData.from_code(c), True), c07_data(w, inp, CodeData.from_code(c).normalize(), True)]
 props.ONE['C08'] = c08_program
 props.ONE['C12'] = c12_one
+props.REPLAY['twins'] = lambda w, prop, inp: c12_twins(w, inp)
 props.REPLAY['synthdoc'] = lambda w, prop, inp: c12_synth(w, inp)
 props.REPLAY['synth'] = lambda w, prop, inp: c07_synth(w, inp)
 props.REPLAY['constpairs'] = lambda w, prop, inp: c08_consts(w, inp)
